@@ -1,0 +1,23 @@
+//go:build verif
+
+package peer
+
+import (
+	"time"
+
+	"github.com/jech/storrent/protocol"
+)
+
+// VerifSetWriter replaces the queue of outgoing messages and the channel that
+// signals the death of the writer (C11: a zero-capacity queue with a closed
+// done channel makes every write fail at once, like a dead connection).
+func (p *Peer) VerifSetWriter(w chan protocol.Message, done <-chan struct{}) {
+	p.writer = w
+	p.writerDone = done
+}
+
+// VerifDownloadEstimate is the rate maybeRequest divides by.
+func (p *Peer) VerifDownloadEstimate() float64 { return p.download.Estimate() }
+
+// VerifRto is the retransmission timeout used by maybeRequest and expireRequests.
+func (p *Peer) VerifRto() time.Duration { return rto(p) }
